@@ -527,6 +527,12 @@ func (l *Link) send(d Dir, m any, stop func() error) error {
 	}
 	cfg := &l.conn.Cfg
 	for (cfg.CapFrames > 0 && len(l.p[d].q) >= cfg.CapFrames) || (cfg.CapBytes > 0 && l.p[d].bytes > 0 && l.p[d].bytes+len(data) > cfg.CapBytes) {
+		if d == C2S && l.peerEndDeliveredLocked() {
+			// grpc-go: the transport (not the application's RecvMsg) takes in the server's end of
+			// stream; a SendMsg waiting for transport quota is then released with io.EOF even
+			// if the application is not reading
+			return io.EOF
+		}
 		l.cond.Wait()
 		if err := stop(); err != nil {
 			return err
@@ -538,6 +544,28 @@ func (l *Link) send(d Dir, m any, stop func() error) error {
 	l.conn.Tap.record(&TapEvent{Link: l, Kind: "emit", Dir: d, Msg: it.msg, Bytes: len(data)})
 	l.cond.Broadcast()
 	return nil
+}
+
+// peerEndDeliveredLocked reports whether the carrier handler has returned and everything it wrote,
+// including the end of the stream, has reached the client's side of the transport.
+func (l *Link) peerEndDeliveredLocked() bool {
+	if !l.srvDone {
+		return false
+	}
+	var latest time.Time
+	for _, it := range l.p[S2C].q {
+		if !it.released {
+			return false
+		}
+		if it.readyAt.After(latest) {
+			latest = it.readyAt
+		}
+	}
+	if latest.After(l.now()) {
+		l.wakeAt(latest)
+		return false
+	}
+	return true
 }
 
 type marshalError struct{ err error }
